@@ -1214,6 +1214,50 @@ def extract_frame_header_checks():
 HOOKS.append(extract_frame_header_checks)
 
 
+def extract_glue_shapes():
+    """Small structural facts of glue code that several properties rest on (each a recognised shape or `false`)."""
+    net = "glonax-runtime/src/net.rs"
+    imp = strip_comments(body_of(net, r"impl\s+ControlNetwork\s*\{", "impl ControlNetwork"))
+    m = re.search(r"pub\s+fn\s+with_filter\s*\(\s*mut\s+self\s*,\s*filter\s*:\s*Filter\s*\)\s*->\s*Self\s*\{", imp)
+    if not m:
+        raise ExtractError(f"{net}: ControlNetwork::with_filter")
+    add("netWithFilterReplaces", "true" if re.sub(r"\s+", "", brace_block(imp, m.end() - 1)) == "{self.filter=filter;self}" else "false",
+        "net.rs ControlNetwork::with_filter is `self.filter = filter; self` (the given filter REPLACES the default one)", ty="Bool")
+    m = re.search(r"pub\s+async\s+fn\s+recv\s*\(\s*&mut\s+self\s*\)[^{]*\{", imp)
+    if not m:
+        raise ExtractError(f"{net}: ControlNetwork::recv")
+    rb = re.sub(r"\s+", "", brace_block(imp, m.end() - 1))
+    shape = rb == ("{loop{letframe=self.socket.recv().await?;ifself.filter.matches(frame.id()){letframe_fixed=FrameBuilder::new(*frame.id())"
+                   ".copy_from_slice(frame.as_ref()).set_len(8).build();self.frame=Some(frame_fixed);break;}}Ok(())}")
+    add("netRecvFiltersThenPadsTo8", "true" if shape else "false",
+        "net.rs ControlNetwork::recv: loop { frame = socket.recv()?; if filter.matches(id) { copy_from_slice(frame) THEN set_len(8); store; break } }", ty="Bool")
+    au = "glonax-runtime/src/service/authority.rs"
+    a = strip_comments(src(au))
+    m = re.search(r"impl\s+NetDriverItem\s*\{\s*fn\s+new\s*\(\s*driver\s*:\s*Box<dyn\s+J1939Unit>\s*,\s*rx_timeout\s*:\s*Option<Duration>\s*\)\s*->\s*Self\s*\{", a)
+    fresh = False
+    if m:
+        nb = re.sub(r"\s+", "", brace_block(a, m.end() - 1))
+        fresh = nb == "{Self{driver,context:NetDriverContext::default(),rx_timeout,last_status:None,}}"
+    add("authorityUnitsHaveTheirOwnContext", "true" if fresh else "false",
+        "authority.rs NetDriverItem::new builds `context: NetDriverContext::default()` (one driver context per unit, nothing shared between units)", ty="Bool")
+    nb = strip_comments(body_of(au, r"fn\s+new\s*\(\s*config\s*:\s*NetworkConfig\s*\)", "NetworkAuthority::new"))
+    n1 = re.sub(r"\s+", "", nb)
+    loop_ok = ("fordriverinconfig.driver.iter(){letnet_driver=crate::driver::net::driver_factory(&driver.vendor,&driver.product,network.interface(),driver.da,driver.sa.unwrap_or(config.address),);"
+               "ifletSome(net_driver)=net_driver{drivers.push(NetDriverItem::new(net_driver,driver.timeout.map(Duration::from_millis),));}else{") in n1
+    add("authorityBuildsEveryKnownEntry", "true" if loop_ok else "false",
+        "authority.rs NetworkAuthority::new: for every configured entry, driver_factory(vendor, product, interface, da, sa or the network address); a known pair is pushed with its timeout, an unknown one only logged", ty="Bool")
+    gv = "glonax-runtime/src/driver/governor.rs"
+    g = strip_comments(src(gv))
+    m = re.search(r"pub\s+fn\s+new\s*\(\s*rpm_idle\s*:\s*u16\s*,\s*rpm_max\s*:\s*u16\s*,\s*state_transition_timeout\s*:\s*Duration\s*\)\s*->\s*Self\s*\{", g)
+    ok = False
+    if m:
+        ok = re.sub(r"\s+", "", brace_block(g, m.end() - 1)) == "{Self{rpm_idle,rpm_max,state_transition_timeout,}}"
+    add("governorNewStoresItsArguments", "true" if ok else "false", "governor.rs Governor::new stores rpm_idle, rpm_max and the timeout as given", ty="Bool")
+
+
+HOOKS.append(extract_glue_shapes)
+
+
 def f32(x):
     import struct
     return struct.unpack("<f", struct.pack("<f", x))[0]
